@@ -1,0 +1,14 @@
+//go:build verif
+// +build verif
+
+package hls
+
+// VerifStartAt installs the state of a generator whose stream has been running for a while: the segment that is
+// open starts at pts (90 kHz) instead of 0 (verification harness only).
+func (sg *SegmentGenerator) VerifStartAt(pts int64) {
+	sg.l.Lock()
+	defer sg.l.Unlock()
+	if sg.current != nil {
+		sg.current.segmentStartPts = pts
+	}
+}
